@@ -6,10 +6,14 @@
    two operands without an operator, also across a parenthesis; no adjacent operators; no operator
    after "(" or before ")"; no "()") and whose parentheses are balanced - up to one operator at the
    very end, the documented exception; (4) a WITH that is not between two licenses is refused.
-   Not proved in Coq: that the position of an error is the position of its token string in the
-   text (error_located); it is checked on the implementation by the oracle on every case. *)
-Require Import Model.Base Model.Expr Model.LicTok Model.BoolParse Model.Licensing.
-Require Import Proofs.ParseSound Proofs.NoLeak Proofs.WithGroup.
+   (5) a parse error of parse() either carries no token (the empty string and position -1: nothing
+   left to parse / unclosed parenthesis at the end) or points at a run g of consecutive non-blank
+   pieces of the text: its position is the start offset of the first piece of g and its token
+   string is made of g - the stretch of the text that g spans, or the texts of g joined by single
+   spaces (an unknown license), or "a WITH b" built from the strings of three such runs
+   (located / made_of, for both tokenizers, strict or not; premise: U+0020 is white space). *)
+Require Import Model.Base Model.Expr Model.Split Model.LicTok Model.BoolParse Model.Licensing.
+Require Import Proofs.ParseSound Proofs.NoLeak Proofs.WithGroup Proofs.Account Proofs.Located.
 
 Theorem C03_no_foreign_exception : forall O T validate strict simple s,
   ~ foreign (parse O T validate strict simple s).
@@ -43,3 +47,14 @@ Example C03_adjacency_table :
               adj_ok (Some TL) TA = false /\ adj_ok (Some TL) TR = false /\
               adj_ok (Some TA) (TS b) = true /\ adj_ok (Some (TS a)) TO = true /\ adj_ok (Some TR) TR = true.
 Proof. intros. repeat split. Qed.
+
+Theorem C03_parse_error_is_located : forall O, is_space O 32%N = true -> forall T text validate strict simple c tok pos,
+  parse O T validate strict simple text = ParseErr c tok pos -> located O text tok pos.
+Proof. exact parse_error_located. Qed.
+Print Assumptions C03_parse_error_is_located.
+
+(* the statement says something: "mit (gpl" over the empty table is refused at the parenthesis *)
+Require Import Model.Index.
+Example C03_located_example :
+  parse ascii_oracle [] false false false [109; 105; 116; 32; 40; 103; 112; 108]%N = ParseErr PARSE_INVALID_NESTING [40]%N 4.
+Proof. vm_compute. reflexivity. Qed.
